@@ -7,8 +7,12 @@ Open Scope Z_scope.
      pre_queries = queries run on a fresh HostTable BEFORE any Update (hostTrie == nil, empty VIP table, no default)
      stages      = [[entries vips dflt queries] ...]  applied to the SAME HostTable object in order: Update(stage tables),
                    then the stage's queries (act -> reload -> act): each stage must be answered from its own tables only
-       entries = [[VB host; VB tag; VB product] ...]   vips = [[VB vip; VB product] ...]   dflt = VB product ("" = none)
-       queries = [[VB host; VB vip] ...]   (vip "" = the session has no VIP)
+       entries = [[VB host; VB tag; VB product] ...]   dflt = VB product ("" = none)
+       vips    = [[VB text; VB addr16; VB canon; VB product] ...]   text = the vip as written in the file (any textual form
+                 of the address); addr16 = net.ParseIP(text).To16() and canon = net.ParseIP(text).String() are supplied by the
+                 generator (net.ParseIP / IP.String are stdlib components outside the model); the implementation only sees text
+       queries = [[VB host; VB vipraw; VB vipstr] ...]   vipraw = Session.Vip as raw net.IP bytes (4-byte or 16-byte form;
+                 "" = the session has no VIP); vipstr = the string passed to LookupProductByVip
    output: [ pre_results [stage_results ...] ], one result per query:
        [VB product; VB tag; VZ err;  VB lp_product; VZ lp_err;  VB vp_product; VZ vp_err]
        (LookupHostTagAndProduct; LookupProduct(host); LookupProductByVip(vip))   err 1 = ErrNoProduct *)
@@ -18,23 +22,35 @@ Definition dec_pair (v : val) : option (bytes * bytes) :=
   match v with VL [VB a; VB b] => Some (a, b) | _ => None end.
 Definition dec_list {A} (f : val -> option A) (v : val) : option (list A) :=
   match v with VL l => all_some (map f l) | _ => None end.
-Definition vip_of (b : bytes) : option bytes := match b with [] => None | _ => Some b end.
+(* the address VALUE of a net.IP: the 4-byte form a.b.c.d and the 16-byte form ::ffff:a.b.c.d are the same address *)
+Definition V4_PREFIX : bytes := [0;0;0;0;0;0;0;0;0;0;255;255].
+Definition norm_ip (raw : bytes) : bytes :=
+  match raw with [_; _; _; _] => V4_PREFIX ++ raw | _ => raw end.
+Definition vip_of (b : bytes) : option bytes := match b with [] => None | _ => Some (norm_ip b) end.
+Record vip_entry := mkVip { v_text : bytes; v_addr : bytes; v_canon : bytes; v_product : bytes }.
+Definition dec_vip (v : val) : option vip_entry :=
+  match v with VL [VB t; VB a; VB c; VB p] => Some (mkVip t a c p) | _ => None end.
+Definition dec_query (v : val) : option (bytes * (bytes * bytes)) :=
+  match v with VL [VB h; VB raw; VB str] => Some (h, (raw, str)) | _ => None end.
+(* the VIP table as a map from address values, and as a map from canonical texts (what LookupProductByVip is keyed by) *)
+Definition by_addr (vs : list vip_entry) : list (bytes * bytes) := map (fun e => (v_addr e, v_product e)) vs.
+Definition by_canon (vs : list vip_entry) : list (bytes * bytes) := map (fun e => (v_canon e, v_product e)) vs.
 
-Record stage := mkStage { s_tbl : list host_entry; s_vips : list (bytes * bytes); s_dflt : bytes;
-                          s_queries : list (bytes * bytes) }.
+Record stage := mkStage { s_tbl : list host_entry; s_vips : list vip_entry; s_dflt : bytes;
+                          s_queries : list (bytes * (bytes * bytes)) }.
 Definition dec_stage (v : val) : option stage :=
   match v with
   | VL [es; vs; VB dflt; qs] =>
-    match dec_list dec_entry es, dec_list dec_pair vs, dec_list dec_pair qs with
+    match dec_list dec_entry es, dec_list dec_vip vs, dec_list dec_query qs with
     | Some tbl, Some vips, Some queries => Some (mkStage tbl vips dflt queries)
     | _, _, _ => None
     end
   | _ => None
   end.
-Definition dec_C10 (i : val) : option (list (bytes * bytes) * list stage) :=
+Definition dec_C10 (i : val) : option (list (bytes * (bytes * bytes)) * list stage) :=
   match i with
   | VL [pq; ss] =>
-    match dec_list dec_pair pq, dec_list dec_stage ss with
+    match dec_list dec_query pq, dec_list dec_stage ss with
     | Some pre, Some stages => Some (pre, stages)
     | _, _ => None
     end
@@ -45,13 +61,13 @@ Definition dec_C10 (i : val) : option (list (bytes * bytes) * list stage) :=
 Section Enc.
 Variable full : list host_entry -> list (bytes * bytes) -> bytes -> bytes -> option bytes -> presult.
 Variable byhost : list host_entry -> bytes -> option route.
-Definition enc_query (tbl : list host_entry) (vips : list (bytes * bytes)) (dflt : bytes) (q : bytes * bytes) : val :=
-  let '(p, t, e) := match full tbl vips dflt (fst q) (vip_of (snd q)) with
+Definition enc_query (tbl : list host_entry) (vips : list vip_entry) (dflt : bytes) (q : bytes * (bytes * bytes)) : val :=
+  let '(p, t, e) := match full tbl (by_addr vips) dflt (fst q) (vip_of (fst (snd q))) with
                     | POk tag prod => (prod, tag, 0)
                     | PErrNoProduct => ([], [], 1)
                     end in
   let '(lp, le) := match byhost tbl (fst q) with Some (_, prod) => (prod, 0) | None => ([], 1) end in
-  let '(vp, ve) := match assoc (snd q) vips with Some prod => (prod, 0) | None => ([], 1) end in
+  let '(vp, ve) := match assoc (snd (snd q)) (by_canon vips) with Some prod => (prod, 0) | None => ([], 1) end in
   VL [VB p; VB t; VZ e; VB lp; VZ le; VB vp; VZ ve].
 Definition enc_stage (s : stage) : val := VL (map (enc_query (s_tbl s) (s_vips s) (s_dflt s)) (s_queries s)).
 Definition with_C10 (i : val) : val :=
@@ -66,7 +82,9 @@ Definition run_C10 (i : val) : val := with_C10 lookup_product find_host_route i.
 Definition agree_C10 (i o : val) : bool := val_eqb (run_C10 i) o.
 (* the property: every observation equals the declarative priority chain (exact host, longest wildcard, VIP, default,
    error) computed on natural host labels from the tables of the CURRENT stage, without the trie and without string
-   reversal; LookupProduct is its host-table part, LookupProductByVip its VIP part *)
+   reversal; the VIP step matches on the address VALUE of Session.Vip (4-byte and 16-byte forms of an IPv4 address are
+   the same address; the textual form used in the file is irrelevant); LookupProduct is the host-table part,
+   LookupProductByVip(text) the VIP table keyed by canonical text *)
 Definition prop_C10 (i o : val) : bool :=
   wf_C10 i && val_eqb (with_C10 spec_product spec_host i) o.
 Definition kf_C10 (i : val) : Z := 0.
